@@ -28,6 +28,7 @@ covers the generated text (byte-order prefix).
 Round 6: every spelling of the byte order x both hosts gives a standard-size struct object; the
 PacketError constructor does not %-format a string that contains the original message; stale
 constructor-derived state.
+Round 7: (inherits) struct runs regrouped through a mapping or joined member by member (C03-d).
 """
 import ast
 
